@@ -208,6 +208,12 @@ impl Case {
     }
 }
 
+/// Execution options with a cycle bound (2^20): a code change that makes a generated program run
+/// away must end in an error the oracle can judge, not in memory exhaustion of the monitor.
+pub fn bounded_opts() -> ExecutionOptions {
+    ExecutionOptions::new(Some(1 << 20), 64, false).expect("options")
+}
+
 pub fn build_lib(l: &LibSrc) -> Result<MaslLibrary, String> {
     let ns = LibraryNamespace::new(&l.namespace).map_err(|e| e.to_string())?;
     let mut modules = vec![];
